@@ -13,6 +13,17 @@ CLAIMED = {
             "DESIGN.md 4 (C19)"),
 }
 
+CLAIMED["C12"] = (
+    "Coq proof of refinement of the ring-of-references model to a map ref -> option object (all histories) + extracted model/spec run against SafePtr",
+    "Theorem C12_weak_references_refine_the_map: for every sequence of create/destroy object, create/copy/assign/clear/destroy reference (unbounded slots) the observations of the code-level model (prev/next/ptr nodes, SafePtrList heads, AddReference/RemoveReference/Clear/InitSafePtr, the destructor loop with proven-sufficient fuel) equal those of the abstract map: Pointer() of every reference, and IsLastReference() = exactly one reference has that target. Tied to SafePtr.cpp/AbstractClass.cpp by differential execution (all effective histories to length 5/7 over 2 objects x 3 references, random walks over 3 x 5) under ASan.",
+    "Coq kernel; extraction; harness/C12.cpp; IsLastReference is only observed on references that point to an object; see DESIGN.md 4/C12",
+    "DESIGN.md 4 (C12)")
+CLAIMED["C08"] = (
+    "Coq proof of refinement of the insertion-sorted queue model to a pending bag delivering the (due, seq)-minimum (all histories incl. re-entrant handlers) + extracted model/spec run against EventQueue",
+    "Theorems C08_*: for every history of post/cancel-by-type/cancel-all/cancel-flagged/destroy/pass/clock advance with handlers that post (possibly already due) and cancel re-entrantly, the code-level model (PostEvent's three-way insertion, pop-while-due pass) equals the specification that keeps an unordered bag and always delivers the pending event minimal in (due time, posting sequence) while it is due; a pass never hangs, leaves nothing due, the queue stays strictly sorted by (due, seq), a cancel removes exactly the named events. Tied to EventQueue.cpp/Listener.cpp by differential execution under the injected clock (hook H1) and ASan.",
+    "Coq kernel; extraction; harness/C08.cpp; hook H1; LinkedList<EventQueueNode*> modelled as a Coq list; handlers do not destroy their own listener; see DESIGN.md 4/C08",
+    "DESIGN.md 4 (C08)")
+
 NOT_YET = "no model, theorem and correspondence check has been built for this property yet (work in progress; see DESIGN.md 9 for the order of work)"
 
 
@@ -59,7 +70,7 @@ def main():
 
 
 NA = {}
-HOOK_COMMITS = []
+HOOK_COMMITS = ["5f437e9 verif hook H1: injectable millisecond clock for TimeManager"]
 
 if __name__ == "__main__":
     main()
